@@ -127,3 +127,14 @@ Definition run_c12_dsep (s : sx) : sx :=
       end
   | _ => bad_request
   end.
+
+(* [nodes edges] -> CPDAG arcs of the class (spec, by enumeration) only; for truths beyond 5 nodes *)
+Definition run_c12_cpdag (s : sx) : sx :=
+  match s with
+  | SL [sn; se] =>
+      match dec_graph sn se with
+      | Some g => sx_ok (of_arcs (cpdag_arcs g))
+      | None => bad_request
+      end
+  | _ => bad_request
+  end.
